@@ -309,6 +309,13 @@ def per_rules(ctx: Ctx):
     else:
         calc = None
 
+    # params of this call reach the continuous and the discrete problem
+    ok_p = kw(scp, "params") == ("param", SOLVE, "params")
+    ok_e = new_vf is not None and new_vf[0] == "call" and kw(new_vf, "params") == ("param", SOLVE, "params")
+    ctx.ob("PER:solve:params-passed", ok_p and (ok_e or new_vf is None), prog.where(scp),
+           "every period is solved with the params of this call" if ok_p and ok_e else
+           "the params argument of solve is not passed to the continuous / discrete problem of each period",
+           lhs=kw(scp, "params") or "missing", rhs="params")
     # ------------------------------------------------------------------ solver offsets
     def param_seq(partial_call, param):
         v = need(kw(partial_call, param), f"partial(...) does not bind {param}")
